@@ -77,6 +77,8 @@ type c04Cell struct {
 	Foreign string `json:"foreign,omitempty"`
 	// PrimerSecret: the victims' own opens carry the mapping's secret (raw-JSON family)
 	PrimerSecret bool `json:"primer_secret,omitempty"`
+	// RoutingTTLms: waiting-tunnel routing TTL of both nodes (0 = production 30 s)
+	RoutingTTLms int `json:"routing_ttl_ms,omitempty"`
 	// Zone: name of the fixed zone time.Local was set to for this run (zone family)
 	Zone string `json:"zone,omitempty"`
 }
@@ -253,8 +255,9 @@ func c04NewWorld(t *testing.T, run *vk.Run, cell c04Cell, idx int) (*c04World, e
 		bg, cancel := context.WithCancel(context.Background())
 		w.cleanup = append(w.cleanup, cancel)
 		store := storage.NewMemoryStorage(bg)
-		w.n = newMiniNode(t, miniOpts{NodeID: "node-a", Store: store, NoCommands: true})
-		w.nb = newMiniNode(t, miniOpts{NodeID: "node-b", Store: store, NoCommands: true})
+		rttl := time.Duration(cell.RoutingTTLms) * time.Millisecond // 0 = production value (30 s)
+		w.n = newMiniNode(t, miniOpts{NodeID: "node-a", Store: store, NoCommands: true, RoutingTTL: rttl})
+		w.nb = newMiniNode(t, miniOpts{NodeID: "node-b", Store: store, NoCommands: true, RoutingTTL: rttl})
 		var started bool
 		for try := 0; try < 8 && !started; try++ {
 			port := c04FreePort()
@@ -1651,6 +1654,216 @@ func TestVerifC04ConcurrentValidation(t *testing.T) {
 	run.Floor("entitled_open_held_in_validation", int64(n-1))
 	run.Floor("request_overlapped_held_validation|id=other", int64(2*(n-1)))
 	run.Floor("entitled_admitted|tunnel=concurrent", int64(n-1))
+}
+
+// ---------------------------------------------------------------------------------
+// Colliding tunnel ids across nodes. The victim's tunnel T (mapping B) lives on node-b.
+// An unrelated client that owns mapping A (1) opens, as the source of its OWN mapping, a
+// tunnel whose id differs from T only in characters a key/identifier normalisation might
+// drop or fold ("T:", ":T", "T*", "T ", "Té", "T/", upper case), on node-b; then (2) opens T
+// on node-a presenting mapping A. Whatever (2) yields for mapping A's own purposes, the
+// connection must never be attached to the victim's tunnel: it must not read a victim's
+// bytes, no victim end may read its bytes, and no bridge of mapping B may hold it.
+// (A success ack alone is not decisive here: with the victim's waiting record expired the
+// client legitimately becomes the source of a NEW tunnel T of its own mapping on node-a.)
+
+type c04Collide struct {
+	State   string `json:"victim_tunnel"` // waiting | served
+	Expired bool   `json:"victim_record_expired"`
+	Variant string `json:"id_variant"`
+	Cred    string `json:"cred"` // id | id+secret (of mapping A)
+}
+
+func c04CollidingID(variant, t string) (victim, attacker string) {
+	switch variant {
+	case "suffix-colon":
+		return t, t + ":"
+	case "prefix-colon":
+		return t, ":" + t
+	case "star":
+		return t, t[:4] + "*" + t[4:]
+	case "space":
+		return t, t + " "
+	case "unicode":
+		return t, t + "é"
+	case "slash":
+		return t, t + "/"
+	case "upper":
+		return t, strings.ToUpper(t)
+	case "victim-has-colon":
+		return strings.Replace(t, "-", ":", 1), strings.Replace(t, "-", "", 1)
+	}
+	return t, t + ":"
+}
+
+func c04RunCollide(t *testing.T, run *vk.Run, c c04Collide, idx int) {
+	cell := c04Cell{Kind: "keyed", Tunnel: "remote", MapState: "active", Identity: "listenA", Cred: c.Cred, Foreign: "disjoint"}
+	if c.Expired {
+		cell.RoutingTTLms = 150
+	}
+	w, err := c04NewWorld(t, run, cell, idx)
+	defer w.close()
+	setupFail := func(why string) {
+		run.Count("cells_setup_failed", 1)
+		run.Observe(fmt.Sprintf("setup_failed|collide-%d", idx), why)
+	}
+	if err != nil {
+		setupFail(err.Error())
+		return
+	}
+	var attackerID string
+	w.tunnel, attackerID = c04CollidingID(c.Variant, w.tunnel)
+	// the victim's tunnel on node-b
+	if err := w.victimListenOpen(); err != nil || !c04Ok(w.vL) {
+		setupFail("victim listen open")
+		return
+	}
+	if c.State == "served" {
+		if err := w.victimTargetOpen(); err != nil || !c04Ok(w.vT) {
+			setupFail("victim target open")
+			return
+		}
+		pre := "<<C04-pre-" + w.tunnel + ">>"
+		w.vL.c.hc.Write([]byte(pre))
+		if got := w.locate(pre, true); got != "victimT" {
+			setupFail("served pair carries no data")
+			return
+		}
+		run.Count("served_pair_carried_data", 1)
+	}
+	if c.Expired {
+		// logical wait: until the routing table itself reports the victim's record gone
+		gone := false
+		for p := 0; p < 4000 && !gone; p++ {
+			if _, err := w.nb.Routing.LookupWaitingTunnel(w.nb.ctx, w.tunnel); err != nil {
+				gone = true
+				break
+			}
+			time.Sleep(500 * time.Microsecond)
+		}
+		if !gone {
+			run.Count("watchdog_record_not_expired", 1)
+			return
+		}
+		run.Count("victim_record_expired_before_attack", 1)
+	} else if _, err := w.nb.Routing.LookupWaitingTunnel(w.nb.ctx, w.tunnel); err == nil {
+		run.Count("victim_record_live_before_attack", 1)
+	}
+	// (1) the unrelated client's own tunnel with the colliding id, on the victim's node
+	own, err := w.newEnd(w.nb, "attacker-own-source", w.LA.ClientID, w.LA.Secret)
+	if err != nil {
+		setupFail(err.Error())
+		return
+	}
+	w.open(own, &packet.TunnelOpenRequest{MappingID: w.mapAID, TunnelID: attackerID})
+	w.logf("unrelated client opens its own tunnel %q (mapping A) on node-b: ack=%s err=%q", attackerID, c04AckStr(own.ack), own.err)
+	if c04Ok(own) {
+		run.Count("own_colliding_tunnel_opened", 1)
+	}
+	if _, err := w.nb.Routing.LookupWaitingTunnel(w.nb.ctx, attackerID); err == nil {
+		run.Count("own_colliding_record_live_at_step2", 1)
+	}
+	// (2) the same client opens the victim's id on node-a with mapping A's credential
+	rq, err := w.newEnd(w.n, "requester", w.LA.ClientID, w.LA.Secret)
+	if err != nil {
+		setupFail(err.Error())
+		return
+	}
+	w.rq = rq
+	req := &packet.TunnelOpenRequest{MappingID: w.mapAID, TunnelID: w.tunnel}
+	if c.Cred == "id+secret" {
+		req.SecretKey = w.secretA
+	}
+	w.open(rq, req)
+	w.logf("requester opens %q on node-a presenting mapping A: ack=%s err=%q", w.tunnel, c04AckStr(rq.ack), rq.err)
+	obs := c04Obs{Ack: c04AckStr(rq.ack), SendErr: rq.err}
+	ownBridge := false
+	if b := c04BridgeOf(w.n, rq); b != nil {
+		obs.Attached = c04Side(b, rq) + "@" + b.GetTunnelID() + "/mapping=" + b.GetMappingID()
+		ownBridge = b.GetMappingID() == w.mapAID
+		if ownBridge {
+			run.Count("requester_became_source_of_its_own_new_tunnel", 1)
+		}
+	}
+	// probe: a forwarded (not locally bridged) admitted requester is the only case in which
+	// bytes can move; wait (bounded polls) only then
+	forwarded := c04Ok(rq) && !ownBridge
+	ends := []*c04End{w.vL, w.vT}
+	for _, v := range ends {
+		if v != nil {
+			w.write(v)
+		}
+	}
+	w.write(rq)
+	if forwarded {
+		run.Count("requester_forwarded_across_nodes", 1)
+		w.locateAmong(rq.mark, true, []*c04End{own})
+	} else {
+		w.locateAmong(rq.mark, false, []*c04End{own})
+	}
+	for _, e := range []*c04End{rq, w.vL, w.vT, own} {
+		e.drain()
+	}
+	for _, v := range ends {
+		if v == nil {
+			continue
+		}
+		if rq.has(v.mark) {
+			obs.Leaked = append(obs.Leaked, v.role)
+		}
+		if v.has(rq.mark) {
+			obs.Injected = append(obs.Injected, v.role)
+		}
+	}
+	obs.Trace = w.trace
+	run.Eval(1)
+	run.Count("cells_executed", 1)
+	run.Distinct(fmt.Sprintf("%+v", c))
+	detail := map[string]any{"case": c, "victim_tunnel_id": w.tunnel, "colliding_id": attackerID, "observed": obs}
+	heldByB := obs.Attached != "" && !ownBridge
+	if len(obs.Leaked) > 0 || len(obs.Injected) > 0 || heldByB {
+		run.Violation("C04:admitted|tunnel=remote-colliding-id|why=tunnel-of-another-mapping", detail)
+	} else {
+		run.Count("not_attached_to_victim_tunnel", 1)
+	}
+	if idx%5 == 0 {
+		run.Sample(detail)
+	}
+}
+
+func TestVerifC04CollidingIDs(t *testing.T) {
+	run := vk.Start(t, "C04", "collide")
+	defer run.Finish()
+	run.Rule("two nodes on one store (real CrossNodeListener + TunnelConnectionManager); product victim tunnel{waiting,served} x id variant{suffix ':', prefix ':', '*', trailing space, unicode letter, '/', upper-cased, victim id itself contains ':'} x credential of mapping A{id,id+secret} with the victim's waiting record live, plus {waiting,served} x {suffix ':', '*'} with the victim's record expired (routing TTL 150 ms, expiry observed through the routing table itself); every case distinct")
+	variants := []string{"suffix-colon", "prefix-colon", "star", "space", "unicode", "slash", "upper", "victim-has-colon"}
+	var cases []c04Collide
+	for _, st := range []string{"waiting", "served"} {
+		for _, v := range variants {
+			for _, cr := range []string{"id", "id+secret"} {
+				cases = append(cases, c04Collide{State: st, Variant: v, Cred: cr})
+			}
+		}
+	}
+	nExp := 0
+	for _, st := range []string{"waiting", "served"} {
+		for _, v := range variants[:run.Pick(2, len(variants))] {
+			cases = append(cases, c04Collide{State: st, Expired: true, Variant: v, Cred: "id"})
+			nExp++
+		}
+	}
+	for i, c := range cases {
+		run.Case(fmt.Sprintf("%+v", c), nil)
+		c04RunCollide(t, run, c, 500000+i)
+		if run.Counter("cells_setup_failed") >= c04MaxSetupFail {
+			break
+		}
+	}
+	run.Exhaustive(true)
+	run.Floor("cells_executed", int64(len(cases)))
+	run.Floor("own_colliding_tunnel_opened", int64(len(cases)))
+	run.Floor("own_colliding_record_live_at_step2", int64(len(cases)-nExp)) // with the short TTL the own record may lapse too
+	run.Floor("victim_record_expired_before_attack", int64(nExp))
+	run.Floor("victim_record_live_before_attack", int64(len(cases)-nExp))
 }
 
 // TestVerifC04ForeignTunnel: the requester holds a credential that is valid — for another
